@@ -200,7 +200,7 @@ def check(ctx):
             ok = len(lenq) == 1 and strip_casts(r)[0] == "call" and strip_casts(r)[1].split("::")[-1] in ("available_elements_count", "len")
             det = f"answers `{show(r)[:80]}`; required: the container's own length query"
         else:
-            ok = len(lenq) == 1 and "max" in names and "min" not in names and "used_streams" in names
+            ok = len(lenq) == 1 and ("max" in names or _running_max(pb, pd)) and "min" not in names and "used_streams" in names
             det = f"calls {sorted(set(names))}; required: the MAXIMUM of the per-listener length queries over the live-listener list (close waits for the slowest listener)"
         ctx.ob("R06.6", f"{kp}|is-the-real-backlog", ok, f"{pb.f['file']}:{pb.f['line']}", det)
     # ------------------------------------------------------------------ R06.5 id given back only by Drop
@@ -215,6 +215,35 @@ def check(ctx):
                 ok = f.get("impl_self") == STREAM and f.get("impl_trait") == "std::ops::Drop"
                 ctx.ob("R06.5", f"{f['key']}|calls|drop_resources", ok, body.loc(b), "the running-stream count drops only when the stream object itself is dropped (Drop for MutinyStream): the executor drops it after the pipeline finished")
     ctx.floor("R06.1", 12); ctx.floor("R06.3", 13); ctx.floor("R06.4", 12); ctx.floor("R06.5", 1); ctx.floor("R06.6", 14)
+
+
+def _running_max(body, dg):
+    """explicit-loop spelling of `.max()`: inside a loop a per-listener length query is compared with a loop-carried local which takes that value exactly on the
+    edge where the query's answer is the greater one (`if len > max { max = len }`), and the function answers that local"""
+    LEN = ("available_elements_count", "remaining_elements_count", "len")
+    is_len = lambda e: any(isinstance(x, tuple) and x[:1] == ("call",) and x[1].split("::")[-1] in LEN for x in _walk_expr(e))
+    for b in sorted(body.reachable):
+        if not util.in_loop(body, b): continue
+        c = D.cmp_of_switch(body, dg, b)
+        if not c: continue
+        cb = D.canon_branch(c)
+        if not cb or cb[0] != "lt": continue
+        kind, x, y, T, Fl = cb                      # T taken iff x < y
+        xs, ys = strip_casts(x), strip_casts(y)
+        if ys[0] == "phi" or not is_len(y) or xs[0] != "phi": continue      # want  acc < len  on T
+        acc = xs[1]
+        # on T (and only there, inside the loop) the accumulator is assigned the length
+        assigns = [(bb, st) for bb in body.reachable for st in body.stmts(bb) if st[0] == "A" and not st[1]["p"] and st[1]["l"] == acc and util.in_loop(body, bb)]
+        if assigns and all(body.dominates(T, bb) or bb == T for (bb, _) in assigns) and all(is_len(dg.rvalue((bb, body.stmts(bb).index(st), st[2]), 0)) for (bb, st) in assigns):
+            return True
+    return False
+
+
+def _walk_expr(e, depth=0):
+    if not isinstance(e, tuple) or depth > 14: return
+    yield e
+    for x in e:
+        if isinstance(x, tuple): yield from _walk_expr(x, depth + 1)
 
 
 def check_multi_pending_counts(ctx):
@@ -250,8 +279,9 @@ def check_multi_pending_counts(ctx):
                 h = [h_ for h_, bl in body.loops.items() if x in bl]
                 if h and se[1] not in body.loops[min(h, key=lambda q: len(body.loops[q]))]: ok_s = False; why = f"the walk leaves the loop on a live entry at {body.loc(x)}"
         ctx.ob("R06.7", f"{k}|walks-the-live-listeners", ok_s and n_sent >= 1, site, "the walk over the live list continues on listener ids and stops only at the sentinel" if ok_s and n_sent else (why or "no sentinel test found"))
-        agg_bad = [x for x in names if x in ("min", "min_by", "min_by_key", "sum", "product", "last", "nth", "next")]
-        ctx.ob("R06.7", f"{k}|aggregates-with-max", ("max" in names or bool(body.loops)) and not agg_bad, site, f"aggregation through {[x for x in names if x in ('max', 'fold', 'max_by', 'max_by_key')] or 'a loop'}" + (f"; unexpected {agg_bad}" if agg_bad else ""))
+        step_in_loop = any(c.get("fname") == "next" and util.in_loop(body, b) for (b, c) in body.calls)      # the iterator step of a `for` loop is not an aggregator
+        agg_bad = [x for x in names if x in ("min", "min_by", "min_by_key", "sum", "product", "last", "nth") or (x == "next" and not step_in_loop)]
+        ctx.ob("R06.7", f"{k}|aggregates-with-max", ("max" in names or _running_max(body, dg)) and not agg_bad, site, f"aggregation through {[x for x in names if x in ('max', 'fold', 'max_by', 'max_by_key')] or 'a loop'}" + (f"; unexpected {agg_bad}" if agg_bad else ""))
         # the queue read belongs to the id being visited
         ok_q = True
         for g in kids + [f]:
